@@ -538,6 +538,110 @@ def client_monitor(case, ob):
     return v
 
 
+# ------------------------------------------------------------------ the handshake reply in several segments (C10)
+def split_handshake_cases(r, n):
+    """the peer's S2M_CONNECT_ACK arrives in one piece, and the very same bytes cut at 1-3 random offsets (also right
+    before the newline and after the first bytes): the client must negotiate the same session and answer the same calls
+    in the same way — a byte stream means the same however it is segmented, on the client's handshake path too."""
+    cases = []
+    for _ in range(n):
+        ops = list(OPS)
+        mm, mp = r.choice([1024, 4096, 8192]), r.choice([1024, 65536, 262144])
+        hs = handshake_bytes(ops, mm, mp)
+        calls = []
+        for call in ("auth", "fbp"):
+            if call == "auth":
+                calls.append({"call": "auth", "token": b"tok".hex(), "close": False,
+                              "reply": sl.frame("S2M_AUTH_ACK", [("id", "@ID@"), ("username", "alice"), ("succeeded", True)]).replace(b"id=@ID@", b"id=@ID@").hex()})
+            else:
+                calls.append({"call": "fbp", "payload": b"hello".hex(), "from": b"alice@localhost".hex(), "channel": b"c1".hex(), "close": False,
+                              "reply": sl.frame("S2M_FORWARD_BROADCAST_PAYLOAD_ACK", [("id", "@ID@"), ("valid", True), ("altered_payload", False), ("altered_payload_length", 0)]).hex()})
+        base = {"cfg": {"client_timeout_ms": 50, "backoff_initial_ms": 1, "backoff_max_ms": 2}, "ops": ops, "handshake": hs.hex(), "calls": calls}
+        k = r.choice([1, 1, 2, 3])
+        cuts = sorted(set(r.choice([1, 2, 3, 7, len(hs) // 2, len(hs) - 2, len(hs) - 1, r.randrange(1, len(hs))]) for _ in range(k)))
+        cut = dict(base)
+        cut["handshake_cut"] = cuts
+        cases.append(base)
+        cases.append(cut)
+    return cases
+
+
+def split_handshake_monitor(cases, obs):
+    v = []
+    for i in range(0, len(cases), 2):
+        a, b = obs[i], obs[i + 1]
+        ra = [o["result"] for o in a.get("calls", [])] if "calls" in a else a
+        rb = [o["result"] for o in b.get("calls", [])] if "calls" in b else b
+        if ra != rb:
+            v.append(("the same handshake reply cut at offsets %s changes what the client does: whole %s, cut %s" % (cases[i + 1]["handshake_cut"], ra, rb), cases[i + 1]))
+    return v
+
+
+# ------------------------------------------------------------------ start-up negotiation of the size limits (C14)
+def init_cases(r, n):
+    """narwhal_modulator::init_modulator against a peer advertising arbitrary limits: the limits the server goes on to
+    run with are the smaller of its own configuration and the modulator's (Model/Link.adjust_limit)"""
+    cases = []
+    vals = [256, 1024, 4096, 8192, 65536, 262144, 1 << 20]
+    for _ in range(n):
+        mm, mp = r.choice(vals[:5]), r.choice(vals)
+        cm, cp = r.choice(vals[:5]), r.choice(vals)
+        cases.append({"cfg": {"client_timeout_ms": 50, "backoff_initial_ms": 1, "backoff_max_ms": 2}, "ops": list(OPS),
+                      "handshake": handshake_bytes(list(OPS), mm, mp).hex(), "calls": [],
+                      "init": {"c2s_max_message": cm, "c2s_max_payload": cp}, "advertised": {"max_message": mm, "max_payload": mp}})
+    return cases
+
+
+def init_monitor(case, ob):
+    if "init" not in ob:
+        return ["the start-up negotiation failed against a healthy modulator: " + str(ob)[:200]]
+    v = []
+    for k, ck, ak in (("adjusted_max_message", "c2s_max_message", "max_message"), ("adjusted_max_payload", "c2s_max_payload", "max_payload")):
+        got, conf, adv = ob["init"][k], case["init"][ck], case["advertised"][ak]
+        if got > conf:
+            v.append("the server configured with %s=%d runs with %d after negotiating with a modulator that advertises %d" % (ck, conf, got, adv))
+        elif got != min(conf, adv):
+            v.append("negotiated %s=%d, configured %d, modulator advertises %d" % (k, got, conf, adv))
+    return v
+
+
+def init_conf_terms(cases, obs):
+    terms = []
+    for c, ob in zip(cases, obs):
+        if "init" not in ob:
+            terms.append("false")
+            continue
+        terms.append("(adjust_limit %d %d =? %d) && (adjust_limit %d %d =? %d)" % (
+            c["init"]["c2s_max_message"], c["advertised"]["max_message"], ob["init"]["adjusted_max_message"],
+            c["init"]["c2s_max_payload"], c["advertised"]["max_payload"], ob["init"]["adjusted_max_payload"]))
+    return terms
+
+
+# ------------------------------------------------------------------ reconnection back-off with the peer away (C16)
+def unreachable_cases(r, n):
+    cases = []
+    for _ in range(n):
+        retries = r.choice([3, 5, 20, 30, 40])
+        ini, mx = r.choice([(1, 2), (10, 100), (100, 1000)])
+        cases.append({"cfg": {"client_timeout_ms": 50, "backoff_initial_ms": ini, "backoff_max_ms": mx, "backoff_retries": retries, "client_connect_timeout_ms": 100},
+                      "unreachable": True, "ops": list(OPS), "handshake": None, "calls": [{"call": "auth"}, {"call": "auth"}]})
+    return cases
+
+
+def unreachable_monitor(case, ob):
+    v = []
+    cfg = case["cfg"]
+    # every wait is the capped delay plus a jitter of at most the capped delay
+    bound = cfg["backoff_retries"] * 2 * cfg["backoff_max_ms"] + (cfg["backoff_retries"] + 1) * cfg["client_connect_timeout_ms"] + 100
+    for j, o in enumerate(ob.get("calls", [])):
+        if o["result"] != "err":
+            v.append("a request issued while the peer is away ended as %s (expected a failure)" % o["result"])
+        elif o["elapsed_ms"] > bound:
+            v.append("a request issued while the peer is away failed only after %d ms; %d reconnection attempts with delays capped at %d ms allow for at most %d ms" % (
+                o["elapsed_ms"], cfg["backoff_retries"], cfg["backoff_max_ms"], bound))
+    return v
+
+
 # ------------------------------------------------------------------ C10 on the client's read path
 def opacity_cases(r, n):
     """replies whose payload bytes look like protocol lines (PINGs, acks for other requests), with every combination of
